@@ -1,5 +1,5 @@
 (* C13 -- proofs about Model/Grid.v: constructors return admissible axes, refine nests them (any number of times). *)
-From Coq Require Import ZArith QArith Qabs List Bool Lia Lqa.
+From Coq Require Import ZArith QArith Qabs Qround List Bool Lia Lqa.
 From RV Require Import Base.QB Model.Grid.
 Import ListNotations.
 Open Scope Q_scope.
@@ -500,3 +500,78 @@ Section GridRefine.
   Theorem refine_n_grid_wf n g : grid_wf g -> grid_wf (refine_n mid n g).
   Proof. intros W. induction n; [exact W|]. cbn [refine_n]. apply refine_grid_wf. exact IHn. Qed.
 End GridRefine.
+
+(* ---------- CTMCUniformGrid: linspace axes *)
+Lemma linspace_length a b n : length (linspace a b n) = n.
+Proof. destruct n as [|[|m]]; simpl; [reflexivity|reflexivity|]. rewrite map_length, seq_length. reflexivity. Qed.
+
+Lemma linspace_nth a b m i : (i < S (S m))%nat ->
+  nthq (linspace a b (S (S m))) i = a + inject_Z (Z.of_nat i) * ((b - a) / inject_Z (Z.of_nat (S m))).
+Proof. intros Hi. unfold nthq, linspace. rewrite nth_map_seq by exact Hi. reflexivity. Qed.
+
+Lemma inj_pos m : 0 < inject_Z (Z.of_nat (S m)).
+Proof. change 0 with (inject_Z 0). rewrite <- Zlt_Qlt. lia. Qed.
+
+Lemma linspace_incr a b n : a < b -> incr (linspace a b n).
+Proof.
+  intros Hab. destruct n as [|[|m]]; [exact I|exact I|].
+  apply nth_succ_incr. intros i Hi. rewrite linspace_length in Hi. rewrite !linspace_nth by lia.
+  pose proof (inj_pos m) as P.
+  assert (St : 0 < (b - a) / inject_Z (Z.of_nat (S m))) by (apply Qlt_shift_div_l; [exact P|lra]).
+  assert (L : inject_Z (Z.of_nat i) < inject_Z (Z.of_nat (i + 1))) by (rewrite <- Zlt_Qlt; lia).
+  set (s := (b - a) / inject_Z (Z.of_nat (S m))) in *. nra.
+Qed.
+
+Lemma linspace_head a b n : (1 <= n)%nat -> headq (linspace a b n) == a.
+Proof.
+  intros Hn. destruct n as [|[|m]]; [lia|reflexivity|]. rewrite headq_nth, linspace_nth by lia.
+  change (inject_Z (Z.of_nat 0)) with 0. lra.
+Qed.
+Lemma linspace_last a b n : (2 <= n)%nat -> lastq (linspace a b n) == b.
+Proof.
+  intros Hn. destruct n as [|[|m]]; [lia|lia|]. rewrite lastq_nth, linspace_length, linspace_nth by lia.
+  replace (S (S m) - 1)%nat with (S m) by lia. pose proof (inj_pos m) as P. field. lra.
+Qed.
+
+Lemma floor_ge x k : (Z.of_nat k <= Qfloor x)%Z -> inject_Z (Z.of_nat k) <= x.
+Proof. intros H. apply Qle_trans with (inject_Z (Qfloor x)); [rewrite <- Zle_Qle; exact H|apply Qfloor_le]. Qed.
+
+Lemma div_ge a b c : 0 < c -> a <= b / c -> a * c <= b.
+Proof. intros Hc H. assert (E : b == b / c * c) by (field; lra). rewrite E. apply Qmult_le_compat_r; lra. Qed.
+
+(* CTMCUniformGrid (repaired: ValueError unless int(|l|/h) >= 2 and int(r/h) >= 1), linspace as its mathematical sequence *)
+Theorem uniform_admissible l h r xs o : 0 < h -> l < 0 -> 0 < r -> uniform_axis l h r = Some (xs, o) ->
+  admissible xs o h /\ headq xs == l /\ (lastq xs == r \/ lastq xs == h).
+Proof.
+  intros Hh Hl Hr. unfold uniform_axis.
+  set (nl := Z.to_nat (Qfloor (Qabs l / h))). set (nr := Z.to_nat (Qfloor (r / h))).
+  destruct (Nat.ltb_spec nl 2) as [|Hnl]; [discriminate|]. destruct (Nat.ltb_spec nr 1) as [|Hnr]; [discriminate|].
+  cbn [orb]. intros E.
+  assert (L2 : 2 <= Qabs l / h).
+  { change 2 with (inject_Z (Z.of_nat 2)). apply floor_ge. unfold nl in Hnl. lia. }
+  assert (R1 : 1 <= r / h).
+  { change 1 with (inject_Z (Z.of_nat 1)). apply floor_ge. unfold nr in Hnr. lia. }
+  assert (Labs : Qabs l == - l) by (apply Qabs_neg; lra).
+  assert (L2' : 2 * h <= - l).
+  { rewrite <- Labs. apply div_ge in L2; [|exact Hh]. lra. }
+  assert (R1' : h <= r).
+  { apply div_ge in R1; [|exact Hh]. lra. }
+  pose proof (assembly_admissible (linspace l (- h) nl) (linspace h r nr) h) as A.
+  assert (I1 : incr (linspace l (- h) nl)) by (apply linspace_incr; lra).
+  assert (FR : forall k, (1 <= k <= nr)%nat -> inject_Z (Z.of_nat k) <= r / h) by (intros k Hk; apply floor_ge; unfold nr in Hk; lia).
+  assert (I2 : incr (linspace h r nr)).
+  { destruct (Nat.le_gt_cases 2 nr) as [H2|H2].
+    - apply linspace_incr. specialize (FR 2%nat ltac:(lia)). change (inject_Z (Z.of_nat 2)) with 2 in FR.
+      apply div_ge in FR; [|exact Hh]. lra.
+    - replace nr with 1%nat by lia. exact I. }
+  assert (N1 : linspace l (- h) nl <> []) by (intro E0; apply (f_equal (@length Q)) in E0; rewrite linspace_length in E0; simpl in E0; lia).
+  assert (N2 : linspace h r nr <> []) by (intro E0; apply (f_equal (@length Q)) in E0; rewrite linspace_length in E0; simpl in E0; lia).
+  specialize (A I1 I2 N1 N2 Hh (linspace_last l (- h) nl Hnl) (linspace_head h r nr Hnr)).
+  unfold assemble in *. destruct A as (A1 & A2 & A3 & A4). injection E as E1 E2.
+  assert (X1 : headq xs = headq (linspace l (- h) nl)) by (rewrite <- E1; exact A2).
+  assert (X2 : lastq xs = lastq (linspace h r nr)) by (rewrite <- E1; exact A3).
+  split; [rewrite <- E1, <- E2; exact A1|]. split; [rewrite X1; apply linspace_head; lia|].
+  rewrite X2. destruct (Nat.le_gt_cases 2 nr) as [H2|H2].
+  - left. apply linspace_last. exact H2.
+  - right. replace nr with 1%nat by lia. reflexivity.
+Qed.
